@@ -390,6 +390,12 @@ func (c *Ctx) c02OnOff() error {
 		"func f() int { m := map[float64]int{}; m[3000000000] = 7; k := float64(3000000000); return m[k] }; y := f(); y",
 		"func f() float64 { z := 0.0; z = -z; w := z - 0; return 1 / w }; y := f(); y",
 		"func f() float64 { z := 0.0; z = -z; z -= 0; v := z + 0; return 1/z + 1/v }; y := f(); y",
+		// failures inside fused windows of statements wrapped over several lines: the same line in both modes
+		"func f(a, b int) int {\n\tq := a /\n\t\tb\n\treturn q\n}\ny := f(7, 0)\ny",
+		"func f(xs []int, i int) int {\n\treturn xs[\n\t\t7]\n}\ny := f([]int{1}, 0)\ny",
+		"func f(m map[string]int) int {\n\tm[\n\t\t\"a\"] = 1\n\treturn 1\n}\nvar nm map[string]int\ny := f(nm)\ny",
+		"type T struct {\n\tF func(int) int\n}\nfunc f(t *T) int {\n\treturn t.\n\t\tF(1)\n}\ny := f(&T{})\ny",
+		"func f(xs []int) int {\n\txs[\n\t\t7]++\n\treturn 1\n}\ny := f([]int{1})\ny",
 	}
 	inputs = append(corpus, inputs...)
 	nprog := 400
